@@ -289,6 +289,9 @@ func (s *Session) Failed() bool {
 
 // Finish writes the shard record and status file and fails the test when needed.
 func (s *Session) Finish() {
+	if p := recover(); p != nil { // a harness panic outside Guard: inconclusive, never a violation
+		s.Abort(fmt.Sprintf("harness panic: %v\n%s", p, debug.Stack()))
+	}
 	r := s.Rec
 	r.mu.Lock()
 	hashes := make([]string, 0, len(r.nt))
